@@ -47,7 +47,7 @@ class SimDeadlock(Exception):
 class Ctx:
     """A simulated process: its own global NumPy and stdlib generators."""
 
-    __slots__ = ("pid", "np_rs", "py_rng", "parent", "ndraws", "crashed", "label")
+    __slots__ = ("pid", "np_rs", "py_rng", "parent", "ndraws", "crashed", "label", "first")
 
     def __init__(self, pid: int, np_state=None, py_state=None, parent: int | None = None, label: str = "main"):
         self.pid = pid
@@ -61,6 +61,7 @@ class Ctx:
         self.ndraws = 0
         self.crashed = False
         self.label = label
+        self.first: list = []        # digests of this process's first few draws (stream-replay detection)
 
 
 class SimThread:
